@@ -163,6 +163,10 @@ def gen_case(ctx, g, focus=None):
         numcol = na
         pool = NUM if r.random() < 0.7 else ['0', '-1', '-2', '-5', '0', '-3']      # zero as a running extreme / sum among negatives
         A = [row + [r.choice(pool)] for row in A]
+        if A and r.random() < 0.08:
+            # one cell that is not a number in either language (an EMPTY or blank cell included: Number('') is 0 in JavaScript, but an
+            # empty cell is not a number - the reference semantics fail at that record)
+            A[r.randrange(len(A))][numcol] = r.choice(['x', '', ' ', '1.2.3', '1,5'])
         items = []
         for _ in range(r.randint(1, 3)):
             if r.random() < 0.75:
